@@ -40,6 +40,12 @@ E1, three complete enumerations on the real TokenParser / StringArgs / ArgvArgs:
     has_option_token), equal tokens, option_tokens == tokens before the first '--' in both forms, and
     has_option_token agreeing with that for every pool token.
 
+(d) two scans at once (E3, mc/sched.py): for 3 pairs of command strings, every interleaving of two threads that each tokenise
+    one string, scheduled at every source line of token_parser.py, with <= 1 (quick) / 2 (thorough) preemptions; each
+    thread must get the tokens the string has when tokenised alone ("for every string" - the scanner's cursor and
+    lookahead belong to one scan).  In (c) the string form is also parsed by a parser object that has parsed another
+    line (with a `--`) before.
+
 Not demanded (statement silent): what a string with unbalanced / nested unescaped quotes or a dangling
 backslash tokenises *to* (only that it does); quoting styles that leave the other quote kind unescaped
 inside a quoted token (the parser nests quotes, "it's" is not a round trip and the statement speaks of
@@ -434,6 +440,15 @@ def check_c(case):
             if o1 != o2:
                 return [report.viol("equiv:parse", "parse(%s, lenient=%s) differs between the command string and the argv list" % (name, lenient),
                                     dict(case, format=name, lenient=lenient), o2, o1)]
+            # ... also when the parser object is not new: one parser that has already parsed a line with a `--` separator
+            # (the parser keeps per-parse scratch state on itself) must treat the string like a fresh parser treats the list
+            used = DefaultArgsParser()
+            _outcome(lambda: used.parse(ArgvArgs(["prog", "-f", "--", "-f", "x"]), fmt, True))
+            o3 = _outcome(lambda: views(used.parse(sa, fmt, lenient)))
+            if o3 != o2:
+                return [report.viol("equiv:parse:used-parser", "parse(%s, lenient=%s) of the command string by a parser that has parsed another "
+                                    "line before differs from a fresh parse of the argv list" % (name, lenient),
+                                    dict(case, format=name, lenient=lenient), o2, o3)]
     app = w["app"]
 
     def resolve(ra):
@@ -472,9 +487,112 @@ def part_c(maxlen):
 
 
 # ------------------------------------------------------------------------------------------
+# (d) two command strings tokenised at the same time (E3: every interleaving of the two scans at the granularity of source
+#     lines of token_parser.py, up to a preemption bound): the scanner's cursor / lookahead state must belong to ONE scan
+# ------------------------------------------------------------------------------------------
+PAIRS_D = [("'a b' -x", 'c\\"d "e f"'), ("run  --n 'x y' -- -v", "'help'\t'a b'\t-q"), ("a\\ b", "'c'")]
+
+
+def run_d(pair, choices):
+    from mc import sched
+    from clikit.args import StringArgs
+    s = sched.Sched(choices, trace_lines_in="token_parser.py")
+    got = [None, None]
+
+    def mk(i):
+        def f():
+            got[i] = list(StringArgs(pair[i]).tokens)
+        return f
+
+    def body():
+        ts = [s.spawn(mk(i), "scan%d" % i) for i in (0, 1)]
+        for t in ts:
+            s.start(t)
+        for t in ts:
+            s.join(t)
+
+    exc, alive = s.run_main(body)
+    return s, got, exc, alive
+
+
+def check_d(pair, bound, first_alts=None):
+    from mc import sched
+    from clikit.args import StringArgs
+    want = [list(StringArgs(x).tokens) for x in pair]
+
+    def run_one(choices):
+        s, got, exc, alive = run_d(pair, choices)
+        case = {"part": "d", "pair": list(pair)}
+        vs = []
+        if s.deadlock or s.livelock or exc is not None or alive:
+            vs.append(report.viol("concurrent:stuck", "two concurrent tokenisations did not both finish (deadlock=%s livelock=%s exc=%r)"
+                                  % (s.deadlock, s.livelock, exc), case, "both finish", [s.deadlock, s.livelock, repr(exc), alive]))
+        for i, t in enumerate(s.threads[1:3]):
+            if t.exc is not None:
+                vs.append(report.viol("concurrent:crash:" + report.exc_site(t.exc), "tokenising %r raised %r while %r was tokenised by "
+                                      "another thread" % (pair[i], t.exc, pair[1 - i]), case, want[i], repr(t.exc)))
+            elif not vs and got[i] != want[i]:
+                vs.append(report.viol("concurrent:tokens", "tokenising %r while another thread tokenised %r gave other tokens than alone"
+                                      % (pair[i], pair[1 - i]), case, want[i], got[i]))
+        return s.points, vs[:1]
+
+    if first_alts == "root":  # the default schedule alone; returns the one-preemption prefixes for the workers
+        points, vs = run_one([])
+        chosen = [p.chosen for p in points]
+        alts = [chosen[:i] + [alt] for i in range(len(points)) for alt in range(1, len(points[i].enabled))]
+        return {"execs": 1, "by_preemptions": {0: 1}, "max_points": len(points), "capped": False}, vs, alts
+    return sched.explore(run_one, bound, first_alts=first_alts)
+
+
+def part_d(bound):
+    """the schedule tree of each pair is cut below the root: the default schedule runs here, every one-preemption prefix (and
+    all that lies below it within the bound) goes to a worker"""
+    jobs, res = [], {}
+    for pi_, pair in enumerate(PAIRS_D):
+        st, vs, alts = check_d(pair, bound, "root")
+        res[pi_] = [list(pair), st, list(vs)]
+        if bound >= 1:
+            for ch in par.chunks(alts, max(1, common.ncpu() * 2 // len(PAIRS_D))):
+                jobs.append([(pi_, ch)])
+
+    def work(share):
+        out = []
+        for pi_, alts in share:
+            st, vs = check_d(PAIRS_D[pi_], bound, alts)
+            out.append((pi_, st, vs[:3]))
+        return out
+
+    for r in par.pmap(work, jobs):
+        for pi_, st, vs in r:
+            tot = res[pi_][1]
+            tot["execs"] += st["execs"]
+            tot["max_points"] = max(tot["max_points"], st["max_points"])
+            for k, v in st["by_preemptions"].items():
+                tot["by_preemptions"][k] = tot["by_preemptions"].get(k, 0) + v
+            res[pi_][2].extend(vs)
+    return [tuple(res[k]) for k in sorted(res)]
+
+
+def replay_d(case):
+    pair = case["pair"]
+    from clikit.args import StringArgs
+    want = [list(StringArgs(x).tokens) for x in pair]
+    s, got, exc, alive = run_d(pair, case.get("choices") or [])
+    for i, t in enumerate(s.threads[1:3]):
+        if t.exc is not None:
+            return [report.viol("concurrent:crash:" + report.exc_site(t.exc), "tokenising %r raised %r" % (pair[i], t.exc), case, want[i], repr(t.exc))]
+        if got[i] != want[i]:
+            return [report.viol("concurrent:tokens", "tokenising %r while another thread tokenised %r gave other tokens than alone"
+                                % (pair[i], pair[1 - i]), case, want[i], got[i])]
+    if s.deadlock or s.livelock or exc is not None or alive:
+        return [report.viol("concurrent:stuck", "two concurrent tokenisations did not both finish", case)]
+    return []
+
+
+# ------------------------------------------------------------------------------------------
 def replay(case):
     signal.signal(signal.SIGALRM, _on_alarm)
-    fn = {"a": lambda c: check_a(c["string"]), "b": check_b, "c": check_c}[case["part"]]
+    fn = {"a": lambda c: check_a(c["string"]), "b": check_b, "c": check_c, "d": replay_d}[case["part"]]
     try:
         _arm(SINGLE_BUDGET)
         vs = fn(case)
@@ -508,6 +626,14 @@ def main():
     rep.merge(vsc)
     rep.part("c-equivalence", pool=POOL_C, max_tokens=lc, lines=nlines, cases=nc, formats=3, modes=2,
              with_option_and_quoted_token=ntc, outcomes=tally)
+    bd = 2 if thorough else 1
+    execs_d = 0
+    rows = []
+    for pair, st, vsd in part_d(bd):
+        rep.merge(vsd)
+        execs_d += st["execs"]
+        rows.append({"pair": pair, "schedules": st["execs"], "by_preemptions": st["by_preemptions"], "max_points": st["max_points"]})
+    rep.part("d-concurrent-scans", preemption_bound=bd, granularity="source lines of token_parser.py", pairs=rows, schedules=execs_d)
     # (b) box by box, smallest first; once anything has been found the larger boxes (third onwards) are not run
     # (they would only repeat it at greater cost) and the evidence says so
     nb = ntb = 0
@@ -527,7 +653,8 @@ def main():
              expressible_tokens_by_max_length=ntoks,
              all_tokens_by_max_length={"%d/%s" % (m, a): sum(len(ALPHAS[a]) ** L for L in range(m + 1)) for _n, m, a in BOUNDS_B[rep.tier]},
              command_strings=nb, with_a_token_that_needs_quotes=ntb, separators=SEPS)
-    rep.set("evaluations", na + na2 + nb + nc)
+    rep.set("evaluations", na + na2 + nb + nc + execs_d)
+    rep.set("schedules", execs_d)
     rep.set("distinct_nontrivial", nta + ntb + ntc)
     hung = any(v["sig"] == "non-termination" for v in rep.violations.values())
     rep.set("exhaustive", not hung and not skipped)
